@@ -798,7 +798,7 @@ class Probability(Expression):
         # only keep the + if necessary, otherwise show regular
         intervention_str = ",".join(
             f"+{intervention.name}" if intervention.star else intervention.name
-            for intervention in interventions
+            for intervention in _sort_interventions(interventions)
         )
         return f"P[{intervention_str}]({unintervened_distribution.to_y0()})"
 
@@ -808,7 +808,9 @@ class Probability(Expression):
         if not interventions or not unintervened_distribution:
             return f"P({self.distribution.to_latex()})"
 
-        intervention_str = ",".join(intervention.to_latex() for intervention in interventions)
+        intervention_str = ",".join(
+            intervention.to_latex() for intervention in _sort_interventions(interventions)
+        )
         return f"P_{{{intervention_str}}}({unintervened_distribution.to_latex()})"
 
     @property
@@ -1711,7 +1713,7 @@ class PopulationProbability(Probability):
         # only keep the + if necessary, otherwise show regular
         intervention_str = ",".join(
             f"+{intervention.name}" if intervention.star else intervention.name
-            for intervention in interventions
+            for intervention in _sort_interventions(interventions)
         )
         return f"PP[{self.population.to_y0()}][{intervention_str}]({unintervened_distribution.to_y0()})"
 
@@ -1730,7 +1732,9 @@ class PopulationProbability(Probability):
         if not interventions or not unintervened_distribution:
             return f"P^{{{pop_latex}}}({self.distribution.to_latex()})"
 
-        intervention_str = ",".join(intervention.to_latex() for intervention in interventions)
+        intervention_str = ",".join(
+            intervention.to_latex() for intervention in _sort_interventions(interventions)
+        )
         return f"P_{{{intervention_str}}}^{{{pop_latex}}}({unintervened_distribution.to_latex()})"
 
 
